@@ -4,6 +4,8 @@ package c02
 import (
 	"errors"
 	"fmt"
+	"math"
+	"strings"
 	"testing"
 
 	geom "github.com/twpayne/go-geom"
@@ -75,7 +77,7 @@ func genCase(t *rapid.T) Case {
 	}
 	pk := partKind[c.Kind]
 	for i := 0; i < n; i++ {
-		names := []string{"push", "push", "push", "push", "pushbad", "reverse", "swap", "clone"}
+		names := []string{"push", "push", "push", "push", "pushbad", "reverse", "swap", "clone", "touchpart", "repush"}
 		if c.Kind == model.GeometryCollection {
 			names = []string{"push", "push", "push", "pushmulti", "pushbad", "clone"}
 		}
@@ -122,6 +124,8 @@ func genCase(t *rapid.T) Case {
 			cur = geom.Layout(op.Layout)
 		case "clone":
 			op.OnOrig = rapid.Bool().Draw(t, "onorig")
+		case "touchpart", "repush":
+			op.Bad = rapid.IntRange(0, 1000).Draw(t, "which")
 		}
 		c.Ops = append(c.Ops, op)
 	}
@@ -339,9 +343,51 @@ func reverseParts(kind string, parts []model.G) {
 	}
 }
 
+// pushedPart is a part object handed to Push, which stays the caller's: the
+// receiver must hold a copy (later changes of either are invisible to the other).
+type pushedPart struct {
+	t    geom.T
+	snap string
+}
+
+func snapPart(t geom.T) string {
+	if _, ok := t.(*geom.GeometryCollection); ok {
+		return "gc"
+	}
+	var sb strings.Builder
+	fmt.Fprintf(&sb, "%T %v %d ", t, t.Layout(), t.SRID())
+	for _, v := range t.FlatCoords() {
+		fmt.Fprintf(&sb, "%x,", math.Float64bits(v))
+	}
+	fmt.Fprint(&sb, t.Ends(), t.Endss())
+	return sb.String()
+}
+
+// buildPart builds a part with spare capacity behind its coordinates (route
+// drawn from the step number), as parts that grew by Push or Reserve have.
+func buildPart(g *model.G, step int) (geom.T, error) {
+	p, err := model.Build(g, model.RouteFlat)
+	if err != nil {
+		return nil, err
+	}
+	if r, ok := p.(interface{ Reserve(int) }); ok && step%2 == 0 {
+		r.Reserve(g.NumCoords() + 4)
+	}
+	return p, nil
+}
+
 func prop(c Case) error {
 	st := &state{layout: geom.Layout(c.Layout)}
 	recv := newRecv(c.Kind, st.layout, c.Fixed)
+	var pushed []pushedPart
+	checkPushed := func(step string) error {
+		for i, pp := range pushed {
+			if now := snapPart(pp.t); now != pp.snap {
+				return fmt.Errorf("%s: the part object pushed earlier (#%d) was modified through the receiver:\n before %s\n after  %s", step, i, pp.snap, now)
+			}
+		}
+		return nil
+	}
 	if err := invariant("new", c.Kind, recv, st, c.Fixed); err != nil {
 		return err
 	}
@@ -349,7 +395,7 @@ func prop(c Case) error {
 		step := fmt.Sprintf("step %d (%s)", i, op.Name)
 		switch op.Name {
 		case "push":
-			p, err := model.Build(&op.Parts[0], model.RouteFlat)
+			p, err := buildPart(&op.Parts[0], i)
 			if err != nil {
 				return err
 			}
@@ -357,6 +403,54 @@ func prop(c Case) error {
 				return fmt.Errorf("%s: Push of a matching part failed: %v", step, err)
 			}
 			st.parts = append(st.parts, *op.Parts[0].Clone())
+			if c.Kind != model.GeometryCollection {
+				pushed = append(pushed, pushedPart{p, snapPart(p)})
+			}
+		case "repush":
+			// the same part object pushed again (a part may be shared by several pushes)
+			if len(pushed) == 0 || c.Kind == model.GeometryCollection {
+				break
+			}
+			pp := pushed[op.Bad%len(pushed)]
+			if pp.t.Layout() != st.layout {
+				break
+			}
+			pm, err := model.FromGeom(pp.t)
+			if err != nil {
+				return err
+			}
+			if err := push(recv, pp.t); err != nil {
+				return fmt.Errorf("%s: Push of an earlier part failed: %v", step, err)
+			}
+			st.parts = append(st.parts, *pm)
+		case "touchpart":
+			// the caller changes a part object after it was pushed: the receiver holds a copy
+			if len(pushed) == 0 {
+				break
+			}
+			k := op.Bad % len(pushed)
+			pt := pushed[k].t
+			switch op.Bad % 3 {
+			case 0:
+				if f := pt.FlatCoords(); len(f) > 0 {
+					f[op.Bad%len(f)] = float64(op.Bad) + 0.125
+				}
+			case 1:
+				if r, ok := pt.(interface{ Reverse() }); ok {
+					r.Reverse()
+				}
+			default:
+				if pg, ok := pt.(*geom.Polygon); ok {
+					one := make([]float64, 2*pg.Stride())
+					for j := range one {
+						one[j] = float64(900 + j)
+					}
+					_ = pg.Push(geom.NewLinearRingFlat(pg.Layout(), one))
+				} else if f := pt.FlatCoords(); len(f) > 0 {
+					f[0] = -float64(op.Bad)
+				}
+			}
+			pushed[k].snap = snapPart(pt)
 		case "pushbad":
 			p, err := model.Build(&op.Parts[0], model.RouteFlat)
 			if err != nil {
@@ -440,6 +534,7 @@ func prop(c Case) error {
 				return err
 			}
 			st = ost
+			pushed = nil
 		case "clone":
 			var cl geom.T
 			switch r := recv.(type) {
@@ -462,6 +557,9 @@ func prop(c Case) error {
 			}
 		}
 		if err := invariant(step, c.Kind, recv, st, c.Fixed); err != nil {
+			return err
+		}
+		if err := checkPushed(step); err != nil {
 			return err
 		}
 	}
